@@ -452,7 +452,8 @@ func Solve(ctx context.Context, cfg *SolverCfg, q *Query) *Result {
 		ms            int64
 	}
 	rest := order[1:]
-	if st == "timeout" && cfg.TimeoutMs > first {
+	// z3 prints "unknown" (not "timeout") when -t expires: treat an unknown close to the limit as a timeout
+	if (st == "timeout" || (st == "unknown" && ms >= int64(first)-400)) && cfg.TimeoutMs > first {
 		rest = append(rest, order[0])
 	}
 	cctx, cancel := context.WithCancel(ctx)
